@@ -209,6 +209,13 @@ func (g *gen) tag(open, body, close string) {
 			}
 		}
 	}
+	if g.o.splitTags && g.pct("closeonnextline", 12) {
+		// the closing delimiter at the start of the next line: the last token of the code is DIRECTLY followed by a
+		// newline (an identifier, keyword or number is read up to the character after it)
+		g.feat("tag_closed_on_next_line")
+		g.cur.write(open + " " + body + "\n" + close)
+		return
+	}
 	g.cur.write(open + " " + body + " " + close)
 }
 
@@ -527,6 +534,11 @@ func (g *gen) rawExpr(k kind, depth int, class string) string {
 					g.feat("index_callee")
 					return "(objs[" + g.maybeProbe(fmt.Sprint(g.intn("oi", 0, 1)), kInt, "index", false) + "].Name)"
 				}
+				if g.pct("idxfield", 20) {
+					// an indexed FIELD followed by a member (evalIndexCallee with a dotted left side)
+					g.feat("indexed_field_member")
+					return []string{"(obj.Kids[1].Label)", "(obj.Kids[" + g.maybeProbe(fmt.Sprint(g.intn("ki", 0, 1)), kInt, "index", false) + "].Label)", "(obj.Inner.Kids[0].Label)", "(obj.Kids[1].Kids[0].Label)", `(obj.KM["a"].Label)`, `(om["x"].Kids[1].Label)`}[g.intn("kpath", 0, 5)]
+				}
 				return []string{"obj.Name", "obj.Inner.Label", `m1["s"]`, "ss[0]", "obj.Tags[1]", "(objs[0].Name)", `(om["x"].Name)`}[g.intn("path", 0, 6)]
 			default:
 				if g.pct("randlit", 25) {
@@ -642,7 +654,23 @@ func (g *gen) rawExpr(k kind, depth int, class string) string {
 				return "false"
 			}
 		}
-		switch g.intn("boolform", 0, 7) {
+		switch g.intn("boolform", 0, 8) {
+		case 8:
+			// floats: arithmetic and comparison
+			g.feat("float_ops")
+			fl := func() string {
+				switch g.intn("flform", 0, 3) {
+				case 0:
+					return g.maybeProbe("f64", kAny, "infix-left:float", false)
+				case 1:
+					return []string{"0.5", "1.5", "2.25", "100.0"}[g.intn("fllit", 0, 3)]
+				default:
+					op := []string{"+", "-", "*", "/"}[g.intn("flop", 0, 3)]
+					return "(" + g.maybeProbe("f64", kAny, "infix-left:float", false) + " " + op + " " + []string{"0.5", "2.0", "0.25"}[g.intn("fllit2", 0, 2)] + ")"
+				}
+			}
+			op := []string{"<", ">", "<=", ">=", "==", "!="}[g.intn("op", 0, 5)]
+			return fl() + " " + op + " " + fl()
 		case 0, 1:
 			op := []string{"<", ">", "<=", ">=", "==", "!="}[g.intn("op", 0, 5)]
 			g.feat("infix_compare")
@@ -2077,12 +2105,51 @@ func (g *gen) failingPiece() {
 		{"unknown-identifier-near-bound-names-2", "s3"},
 	}...)
 	kinds = append(kinds, []struct{ kind, body string }{
+		// operations that fail in the less travelled operators (arrays, floats, nil, mixed kinds, map keys, argument counts)
+		{"append-wrong-type-to-typed-slice", `xs + "a"`},
+		{"array-literal-minus", "[1, 2] - 1"},
+		{"array-times", "xs * 2"},
+		{"float-regex-match", "f64 ~= 2.5"},
+		{"nil-plus-nil", "nil + nil"},
+		{"nil-minus-int", "nil - 1"},
+		{"nil-less-than", "nil < 1"},
+		{"int-regex-match", "n1 ~= 2"},
+		{"int-key-for-string-map", "m1[1]"},
+		{"bool-key-for-string-map", "mi[true]"},
+		{"too-many-arguments-for-method", `obj.Greet("a", "b")`},
+		{"too-many-arguments-for-helper", `upcase("a", "b")`},
+		{"string-times", "s1 * 2"},
+		{"string-index-for-slice", `xs["a"]`},
+		{"float-index-for-slice", "ss[1.5]"},
+		{"float-plus-string", `f64 + "a"`},
+		{"float-minus-bool", "f64 - true"},
+		{"float-plus-int", "1.5 + n1"},
+		{"int-plus-float", "n1 + 1.5"},
+		{"bool-less-than", "b1 < b0"},
+		{"member-of-slice-field", "obj.Tags.Nope"},
+		{"member-of-string-field", "obj.Name.Nope"},
+		{"member-of-map-by-dot", "m1.nope.deeper"},
+		{"prefix-minus", "-n1"},
+		{"indexed-field-out-of-range", "obj.Kids[5].Label"},
+		{"indexed-field-missing-member", "obj.Kids[0].Nope"},
+		{"method-on-indexed-field-unknown-identifier", `obj.Kids[0].Hello("x")`},
+		// assignments that fail (statement forms: kind starts with "stmt-")
+		{"stmt-bare-unknown-identifier", "zq"}, // a statement that is ONE token
+		{"stmt-assign-string-into-int-slice", `xs[0] = "a"`},
+		{"stmt-assign-with-string-index", `xs["a"] = 1`},
+		{"stmt-assign-index-of-a-number", "n1[0] = 1"},
+		{"stmt-assign-int-into-string-slice", "ss[0] = 1"},
+		{"stmt-assign-int-into-string-slice-field", "obj.Tags[0] = 1"},
+		{"stmt-assign-to-field-unknown-identifier", "obj.Name = 1"},
+		{"stmt-assign-index-equals-length", "xs[3] = 1"},
+		{"stmt-assign-index-of-a-string", `s1[0] = "x"`},
 		{"missing-field-mid-path", "obj.Nofield.X"},
 		{"missing-field-deep-in-path", "obj.Inner.Nofield.Y"},
 		{"field-of-a-number", "n1.Foo.Bar"},
 	}...)
 	k := kinds[g.intn("failkind", 0, len(kinds)-1)]
-	if k.body != "" && !strings.Contains(k.kind, "unknown-identifier") && g.pct("failframe", 50) {
+	isStmt := strings.HasPrefix(k.kind, "stmt-")
+	if k.body != "" && !isStmt && !strings.Contains(k.kind, "unknown-identifier") && g.pct("failframe", 50) {
 		// the failing operation sits in a frame that tolerates an UNKNOWN IDENTIFIER (condition, operand of
 		// ! == != && ||): a failed operation is not an unknown identifier, the render must fail all the same
 		frames := []struct{ name, f string }{
@@ -2102,7 +2169,7 @@ func (g *gen) failingPiece() {
 	if g.nest > 0 || g.cur.name != "" {
 		// nested (in a body or a partial): guard with a marker probe that is
 		// evaluated, in the same tag, right before the failing operation
-		if k.body == "" {
+		if k.body == "" || isStmt {
 			k = kinds[1]
 			g.p.Failing = k.kind
 		}
@@ -2144,12 +2211,20 @@ func (g *gen) failingPiece() {
 		g.tag("<%", "}", "%>")
 	default:
 		g.p.FailLine = g.cur.line
-		if g.o.splitTags && g.pct("failmultistmt", 20) {
+		if isStmt {
+			g.tag("<%", k.body, "%>")
+		} else if g.o.splitTags && g.pct("failmultistmt", 20) {
 			// the failing statement is the last of several in one code tag, after a comment line
 			g.feat("failing_statement_in_multi_statement_tag")
 			g.cur.write("<%\n  let " + g.fresh("mv") + " = 1\n  # the next statement fails\n")
 			g.p.FailAltLine = g.cur.line
-			g.cur.write("  let " + g.fresh("mv") + " = " + k.body + "\n%>")
+			if k.kind == "unknown-identifier" && g.pct("bareident", 50) {
+				// the failing statement is one identifier, directly followed by the newline before the closing delimiter
+				g.feat("failing_statement_is_one_token_at_end_of_line")
+				g.cur.write("  zq\n%>")
+			} else {
+				g.cur.write("  let " + g.fresh("mv") + " = " + k.body + "\n%>")
+			}
 		} else {
 			g.tag("<%=", k.body, "%>")
 		}
@@ -2194,6 +2269,11 @@ var brokenTags = []string{
 	"@+1:<%= if (b1) { %>x<% let q9 = 1\n%><% } else if ( { %>y<% } %>",
 	"@+1:<%= for (x) in xs { %><%= x\n%><% } else { %>",
 	"@+2:<% let q8 = [1,\n2]\n%><%= foo(n1, %>",
+	// the token the parser is at when it gives up is directly followed by a newline
+	"<% let x\n%>",
+	"<% let x = 1.2.3\n%>",
+	"<% break\n%>",
+	"<%= if (b1) { return 1 } else\n%>",
 	// one broken tag that sets off more than ten messages
 	"<%= 1 ))))))))))))) %>",
 	"<%= pb(0, {\"a\": 1 \"b\": 2, \"c\": 3, \"d\": 4, \"e\": 5, \"f\": 6, \"g\": 7}) { %>\nx\n<% } %>",
